@@ -164,6 +164,9 @@ func TakeBP(b *PB) int { return -1 }
 //go:noinline
 func PMap(m map[string]int) int { return -1 }
 
+//go:noinline
+func PPtrMap(p *S, m map[string]int) int { return -1 }
+
 type exp int
 
 const (
@@ -542,6 +545,43 @@ func TestC09(t *testing.T) {
 			}
 			if len(ev) != 1 || reflect.TypeOf(ev[0]) != reflect.TypeOf(S{}) || ev[0].(S) != (S{7, "seven"}) {
 				rep.Violate("C09/eval-value-not-of-declared-type", fmt.Sprintf("Eval() after Return(struct{A int; B string}{7,seven}) on func() S gives %#v (types %v), want S{7,seven}", ev, typesOf(ev)), nil)
+			}
+		}
+		b.Reset()
+	}
+	// ---- When values are compared against the arguments of the call being made: the same pointer or map passed again
+	// after what it refers to has changed is a different argument
+	{
+		b := mocker.Create()
+		var cerr interface{}
+		func() {
+			defer func() { cerr = recover() }()
+			b.Func(PPtr).Return(0).When(&S{1, "fast"}).Return(1).When(&S{2, "slow"}).Return(2)
+			b.Func(PMap).Return(0).When(map[string]int{"k": 1}).Return(1)
+			b.Func(PPtrMap).Return(0).When(&S{1, "fast"}, map[string]int{"k": 1}).Return(1)
+		}()
+		rep.Eval(3)
+		rep.Class("same-reference-changed-content")
+		if cerr != nil {
+			rep.Violate("C09/when-value-rejected", fmt.Sprintf("pointer and map values as When arguments rejected: %v", firstLine(cerr)), nil)
+		} else {
+			p := &S{1, "fast"}
+			m := map[string]int{"k": 1}
+			var got []int
+			for round := 0; round < 2; round++ {
+				got = append(got, PPtr(p), PMap(m), PPtrMap(p, m))
+				p.A, p.B = 2, "slow"
+				m["k"] = 2
+				got = append(got, PPtr(p), PMap(m), PPtrMap(p, m))
+				p.A, p.B = 3, "other"
+				delete(m, "k")
+				got = append(got, PPtr(p), PMap(m), PPtrMap(p, m))
+				p.A, p.B = 1, "fast"
+				m["k"] = 1
+			}
+			want := []int{1, 1, 1, 2, 0, 0, 0, 0, 0, 1, 1, 1, 2, 0, 0, 0, 0, 0}
+			if fmt.Sprint(got) != fmt.Sprint(want) {
+				rep.Violate("C09/when-compared-against-an-earlier-call", fmt.Sprintf("one *S and one map passed to stubs with conditions on their content, changed between the calls ({1,fast}/k=1, {2,slow}/k=2, {3,other}/no k; twice): results %v, want %v", got, want), nil)
 			}
 		}
 		b.Reset()
